@@ -1028,6 +1028,10 @@ func (client *client) publishHandler(pub *packets.Publish) *codes.Error {
 		}
 		if exist {
 			dup = true
+			// a retransmission takes no new slot of the receive quota charged by readLoop
+			if client.version == packets.Version5 {
+				client.addServerQuota()
+			}
 		}
 	}
 
